@@ -270,6 +270,11 @@ def check_encoder_table(prog, rep):
     lim = EnumV("core::option::Option", {0: StructV([])}, prog.ty(body["locals"][2]["ty"]))
     rows = []
     markers = []
+    P_ = {f["name"]: i for i, f in enumerate(prog.adts["packet::Packet"]["variants"][0]["fields"])}
+    H_ = {f["name"]: i for i, f in enumerate(prog.adts["header::Header"]["variants"][0]["fields"])}
+    payload_place = a0.place.extend(("f", P_["payload"]))
+    I.no_join_bodies.add(body["id"])
+    I.K_ret = 16
 
     def hook(I_, s, call, cbody):
         if call.ctx.body["path"] != body["path"]:
@@ -286,9 +291,14 @@ def check_encoder_table(prog, rep):
                 vv = I_.read(s, call.args[0].place)
             if isinstance(v, IntV) and v.aff.is_const() and v.aff.c == REG["header"]["payload_marker"] and isinstance(vv, VecV) and not s.ghost.get("pushes"):
                 markers.append((s.copy(), call.site))
+                s.ghost[("inj", "marker")] = True
                 return
             if "pushes" in s.ghost:
                 s.ghost["pushes"] = tuple(s.ghost["pushes"]) + (v,)
+        elif p in ("core::ptr::copy", "core::ptr::copy_nonoverlapping"):
+            src = call.args[0]
+            if isinstance(src, PtrV) and isinstance(src.place, Place) and src.place == payload_place:
+                s.ghost[("inj", "payload-copied")] = True
         elif p == "alloc::vec::Vec::<T, A>::reserve" and s.ghost.get("pushes"):
             pushes = s.ghost["pushes"]
             n = call.args[1]
@@ -387,6 +397,32 @@ def check_encoder_table(prog, rep):
         if not (isinstance(pl, VecV) and s.entails(pl.len - 1)):
             okm = False
     rep.ob("C01.6", "marker=>payload", okm, "the payload marker 0xFF can be written for an empty payload (or is never written)", site)
+    # the converse: a non-empty payload of a non-Empty message is always emitted behind a marker
+    mcv = [v["name"] for v in prog.adts["header::MessageClass"]["variants"]]
+    okc, n_pay = True, 0
+    for s, rv in res:
+        if not (isinstance(rv, EnumV) and list(rv.variants) == [0]):
+            continue
+        pl = I.read(s, payload_place)
+        code = I.read(s, a0.place.extend(("f", P_["header"]), ("f", H_["code"])))
+        not_empty_code = isinstance(code, EnumV) and mcv.index("Empty") not in code.variants
+        empty_code = isinstance(code, EnumV) and list(code.variants) == [mcv.index("Empty")]
+        emitted = bool(s.ghost.get(("inj", "marker")) and s.ghost.get(("inj", "payload-copied")))
+        if not_empty_code:
+            n_pay += 1
+            # without a marker the payload must be known to be empty on this path
+            if not emitted and not (isinstance(pl, VecV) and s.entails_eq(pl.len, Aff.const(0))):
+                okc = False
+        elif empty_code:
+            if s.ghost.get(("inj", "marker")):
+                okc = False
+        elif not emitted:
+            # code not distinguished on this path: then the payload must be empty
+            if not (isinstance(pl, VecV) and s.entails_eq(pl.len, Aff.const(0))):
+                okc = False
+    rep.ob("C01.6", "payload=>emitted", okc and n_pay > 0,
+           "a message with a non-Empty code and a non-empty payload can be serialised without its payload marker and payload (paths checked: %d)" % n_pay, site,
+           sample={"rule": "C01.6", "paths_with_payload": n_pay, "ok": okc})
 
 
 def nib_ok_delta(I, s, dbits, cls_, e):
